@@ -4,7 +4,7 @@
    C08's aggregate consumes).  A state is a date <<y, m, d>> and an hour.
    Contract: "D" -> y*10000 + m*100 + d, "MS" -> y*100 + m, "h" ->
    y*1000000 + m*10000 + d*100 + hour, "AS" -> y, "AS-<MON>" -> the year in
-   which the water year starting in month MON began; dayofyear -> day of year
+   which the water year ENDING in month MON began; dayofyear -> day of year
    with 29 Feb counted as day 59 again (every year has 365 days).
    The index must be non-decreasing along the calendar (what aggregate needs). *)
 EXTENDS Integers, Sequences, TLC, Calendar
@@ -17,7 +17,9 @@ Spec == Init /\ [][Next]_vars
 IdxD(t) == t[1] * 10000 + t[2] * 100 + t[3]
 IdxMS(t) == t[1] * 100 + t[2]
 IdxH(t, h) == (t[1] * 100 + t[2]) * 10000 + t[3] * 100 + h          \* y*1e6 overflows 32 bits beyond 2147: see harness
-WaterYear(t, startmonth) == IF t[2] >= startmonth THEN t[1] ELSE t[1] - 1
+\* "AS-<MON>": MON is the END month of the water year (see water_year_end); the index is the year in which the
+\* water year containing the date began (start month = the month after MON)
+WaterYear(t, endmonth) == LET sm == (endmonth % 12) + 1 IN IF t[2] >= sm THEN t[1] ELSE t[1] - 1
 Doy365(t) == LET d == DayOfYear(t) IN IF IsLeap(t[1]) /\ t[2] > 2 THEN d - 1 ELSE d
 Monotone == LET n == NextDay(date) IN
               /\ IdxD(date) < IdxD(n) /\ IdxMS(date) <= IdxMS(n)
